@@ -151,9 +151,15 @@ func genScenario(t *rapid.T) *scenario {
 		failEvery: rapid.SampledFrom([]int{0, 0, 0, 1, 3, 7}).Draw(t, "destinationFailsEvery"),
 	}
 	sc.shared = [][]lm.Step{nil}
-	for i, n := 0, rapid.IntRange(0, 3).Draw(t, "nshared"); i < n; i++ {
+	for i, n := 0, rapid.IntRange(0, 5).Draw(t, "nshared"); i < n; i++ {
 		parent := rapid.IntRange(0, len(sc.shared)-1).Draw(t, "sharedParent")
-		sc.shared = append(sc.shared, append(append([]lm.Step{}, sc.shared[parent]...), lm.GenStep(genOpts).Draw(t, "sharedStep")))
+		c := append([]lm.Step{}, sc.shared[parent]...)
+		// one to three derivation steps at once: nested groups and attributes below groups are what gives every
+		// logger a line prefix of its own, built in scratch memory that the loggers share
+		for k, m := 0, rapid.SampledFrom([]int{1, 1, 2, 3}).Draw(t, "sharedSteps"); k < m; k++ {
+			c = append(c, lm.GenStep(genOpts).Draw(t, "sharedStep"))
+		}
+		sc.shared = append(sc.shared, c)
 	}
 	g := rapid.IntRange(2, 8).Draw(t, "goroutines")
 	for gi := 0; gi < g; gi++ {
